@@ -157,6 +157,11 @@ def check_protocol(ctx, model, clauses):
                 v = ev['value']
                 m = v.value if isinstance(v, ast.Attribute) else None
                 st = 'install %s = %s' % (ev['attr'], canon(v))
+                if m is None and isinstance(v, ast.Call) and isinstance(v.func, ast.Name) and v.func.id == 'getattr' and v.args and model.sym(v.args[0]):
+                    # setattr(cls, name, getattr(module, name, None)) in a loop over names
+                    if once('R10-validate-before-install', 'dynamic install'):
+                        ctx.violation('R10-validate-before-install', fi, st, 'whatever the module namespace happens to hold is installed (the generate_for_pack / generate_for_unpack options are not consulted): a function left there by an earlier same-named module is installed although this declaration did not generate it', line, clause='V')
+                    continue
                 if m is None or not model.sym(m):
                     if once('R10-validate-before-install', st):
                         ctx.undecided('R10-validate-before-install', fi, st, 'the installed function is not an attribute of a loaded / in-memory module', line, clause='V')
